@@ -198,6 +198,28 @@ Theorem C14_refund_in_full_partial : forall s id f ben p cur,
 Proof. exact refund_available. Qed.
 Print Assumptions C14_refund_in_full_partial.
 
+(* history level: along every history of non-negative contributions ([nonneg_op], complement of the trigger
+   C14.negative_fund_amount for contributions) in which every distribution deleted every funder record ([nokeep],
+   complement of C14.stale_fund_records), the recorded total of every proposal is the sum of its non-negative
+   funder records; hence a funder of a cancelled / goal-missed proposal can always withdraw the whole record *)
+Theorem C14_refund_in_full_history_partial : forall ts id f ben p cur,
+  Forall nokeep ts -> Forall nonneg_op ts ->
+  let s := (run init ts).1 in
+  g_props s !! id = Some p -> refundable (p_outcome p) = true -> funded_visible (g_blk s) p f = true ->
+  alookup f (p_indiv p) = Some cur ->
+  0 <= cur /\ exists s', h_withdraw s id f cur ben = Some (s', [EvRefund id f ben cur]).
+Proof. exact refund_in_full. Qed.
+Print Assumptions C14_refund_in_full_history_partial.
+
+Theorem C14_funds_invariant_partial : forall ts, Forall nokeep ts -> Forall nonneg_op ts ->
+  forall id p, g_props (run init ts).1 !! id = Some p ->
+  Forall (fun kv => 0 <= kv.2) (p_indiv p) /\ p_total p = asum (p_indiv p).
+Proof.
+  intros ts Hk Hn id p H. refine (run_funds ts init Hk Hn _ id p H).
+  intros i q Hq. unfold init in Hq. simpl in Hq. rewrite lookup_empty in Hq. discriminate.
+Qed.
+Print Assumptions C14_funds_invariant_partial.
+
 Theorem C14_refund_in_full_refuted : exists ts,
   existsb trig_negative_amount ts = true /\
   let s := (run init ts).1 in
